@@ -262,7 +262,8 @@ def normalise(res, R, exact):
                 return ("q", "FLOAT", m * float(f), dim)
             return ("q", Fraction(m) * f, dim)
         # (float exponents produced by auto-reduction - meter * liter -> meter ** 3.9999999999999996 - are snapped to small rationals)
-        return ("q", float(m) * float(f), {k: Fraction(v).limit_denominator(10 ** 6) for k, v in dim.items()})
+        # (float exponents from auto-reduced units are snapped to rationals; a residue like 1e-17 snaps to 0 and is no entry)
+        return ("q", float(m) * float(f), {k: w for k, w in ((k_, Fraction(v).limit_denominator(10 ** 6)) for k_, v in dim.items()) if w != 0})
     if exact and isinstance(res, float):
         return ("q", "FLOAT", res)
     return ("q", Fraction(res) if exact else float(res), {})
